@@ -115,6 +115,9 @@ func runC02(r *core.Run) {
 			if i == nops/4 {
 				s.DirectedBadOutputs()    // every bad output construction through swap and mint, then the corrected request
 				s.DirectedOwnInvoice(mpp) // the mint's own invoice in both spellings, plain and partial
+				if mpp {
+					s.DirectedSubSatMpp() // parts of less than one sat: the fee limit comes out as zero
+				}
 			}
 			s.RandomOp(cfg)
 		}
